@@ -32,6 +32,15 @@ def search(prop, violations):
     for s, o in list(zip(sess2, outs2))[2:]:
         if o != outs2[1]:
             return {'session': s, 'observed': o, 'demanded': outs2[1] + ' (what a VM that never saw the definition answers)', 'kind': 'a definition the failed form never executed is visible afterwards'}
+    # ... the same for plain definitions: a `define` the failed form never executed binds nothing, one it overrode stays as it was
+    sess4 = ["undefined-name-d", "(if (car '()) (define undefined-name-d 4) 'no);;undefined-name-d", "(list (define undefined-name-d 1) (lambda));;undefined-name-d",
+             "(define b 1);;(if (car '()) (define b 2) 'no);;b"]
+    outs4 = replay.run_sessions(sess4)
+    for s, o in list(zip(sess4, outs4))[1:3]:
+        if o != outs4[0]:
+            return {'session': s, 'observed': o, 'demanded': outs4[0] + ' (what a VM that never saw the definition answers)', 'kind': 'a definition the failed form never executed is visible afterwards'}
+    if outs4[3] != 'OK 1':
+        return {'session': sess4[3], 'observed': outs4[3], 'demanded': 'OK 1', 'kind': 'a definition the failed form never executed is visible afterwards'}
     # "repeated failures do not accumulate stack depth or memory": 1000 failures of each kind, then the same probe as a fresh VM
     def slots(o):
         m = re.search(r'stack-slots=Some\((\d+)\)', o)
